@@ -69,7 +69,7 @@ class ReusedParser:
         Excel.parse = classmethod(lambda cls, path: excel)
         try:
             self.n += 1
-            self.p.set_excel_file_path('<memory %d>' % self.n)
+            self.p.set_excel_file_path('<memory>')          # always the same path: the workbook behind it is what changes
             if entry != self.entry:
                 self.p.set_entrypoint_cell(m['Cell'](*entry))
                 self.entry = entry
